@@ -153,6 +153,23 @@ func (c *Ctx) rootRule(rule string) {
 		root := s.Args()[2]
 		d := c.ReachOf(s.Instr)
 		ok := d.Implies(c.M(true, isNilCmp(func(t *core.Term) bool { return t.IsCallTo(invParent) && t.Args[0].V == root })))
+		if !ok {
+			// the root may be computed by a helper: every return of that helper must be reached only with Parent() == nil of the returned value
+			if call, isCall := root.(*ssa.Call); isCall {
+				if g := call.Call.StaticCallee(); g != nil && g.Blocks != nil && core.InModule(pkgOf(g)) {
+					all := true
+					rets := core.Returns(g)
+					for _, ret := range rets {
+						rv := ret.Results[0]
+						gd := c.ReachOf(ret)
+						if !gd.Implies(c.M(true, isNilCmp(func(t *core.Term) bool { return t.IsCallTo(invParent) && t.Args[0].V == rv }))) {
+							all = false
+						}
+					}
+					ok = all && len(rets) > 0
+				}
+			}
+		}
 		r.Check(rule, FnKey(s.Fn)+":resolveExpr-root", c.Pos(s.Pos()), ok, "the node handed to resolveExpr as root is not known to be the root of the source tree (Parent() == nil): for nested destinations the path would be resolved relative to an inner struct; reach: "+d.Describe(c.O))
 	}
 	r.Floor(rule, "resolveExpr call sites", n, 2)
